@@ -51,6 +51,10 @@ def states(tier, seed):
         for p, pr in itertools.product(["NC", "CC"], ["electron", "antineutrino"]):
             out.append({"family": "unpol", "process": p, "projectile": pr, "heavyness": "light", "scheme": "ZM-VFNS", "pto": 2, "tmc": 0})
             out.append({"family": "pol", "process": p, "projectile": pr, "heavyness": "light", "scheme": "ZM-VFNS", "pto": 2, "tmc": 0})
+    # non-default target mass, W mass and Fermi constant (they enter the normalisations and y+)
+    for p, pr, tmc in (("CC", "neutrino", 0), ("CC", "antineutrino", 1), ("NC", "electron", 0)):
+        out.append({"family": "unpol", "process": p, "projectile": pr, "heavyness": "total", "scheme": "ZM-VFNS", "pto": 1, "tmc": tmc, "theory": {"MP": 2.0, "MW": 50.0, "GF": 2.5e-5}})
+        out.append({"family": "unpol", "process": p, "projectile": pr, "heavyness": "charm", "scheme": "FFNS3", "pto": 0, "tmc": tmc, "theory": {"MP": 0.5, "MW": 200.0, "GF": 1e-6}})
     # O(a_s^3) light kernels (fl11 flavour class, N3LO order keys incl. all scale-variation keys)
     for p, pr in (("NC", "positron"), ("CC", "neutrino"), ("EM", "electron")):
         st = {"family": "unpol", "process": p, "projectile": pr, "heavyness": "light", "scheme": "ZM-VFNS", "pto": 3, "tmc": 0}
@@ -77,7 +81,8 @@ def execute(st):
     out, status = rel.try_run(st, obs)
     if status != "ok":
         return {"violations": [], "nontrivial": False, "outcome": status, "transitions": 1, "info": {"n_" + status.split(":")[0]: 1}}
-    th = cards.BASE_THEORY
+    th = dict(cards.BASE_THEORY)
+    th.update(st.get("theory", {}))
     viol = []
     maxrel = 0.0
     nontrivial = False
